@@ -123,6 +123,13 @@ def _fingerprints():
         "md5-last32": lambda b: hashlib.md5(b).digest()[-4:],
         "sha1-first32": lambda b: hashlib.sha1(b).digest()[:4],
         "sha256-first32": lambda b: hashlib.sha256(b).digest()[:4],
+        # 40- / 48-bit truncations (hexdigest()[:12] and friends; found by tools/mkcollisions48.py)
+        "md5-first48": lambda b: hashlib.md5(b).digest()[:6],
+        "md5-last48": lambda b: hashlib.md5(b).digest()[-6:],
+        "md5-first40": lambda b: hashlib.md5(b).digest()[:5],
+        "md5-hex-mid12": lambda b: hashlib.md5(b).digest()[5:11],
+        "sha1-first48": lambda b: hashlib.sha1(b).digest()[:6],
+        "sha256-first48": lambda b: hashlib.sha256(b).digest()[:6],
         "adler32": lambda b: zlib.adler32(b).to_bytes(4, "big"),
         "crc32": lambda b: zlib.crc32(b).to_bytes(4, "big"),
         "len+sum16": lambda b: (len(b) & 0xFFFF).to_bytes(2, "big") + (sum(b) & 0xFFFF).to_bytes(2, "big"),
